@@ -629,6 +629,20 @@ CHAIN_FAULTS = {
     "impostor-root-same-name:aki-with-issuer-and-serial-only": ch_aki_issuer_serial_only(ch_impostor_root), "expired-leaf:aki-with-issuer-and-serial-only": ch_aki_issuer_serial_only(ch_expired_leaf), "expired-leaf:valid-since-the-epoch": ch_expired_leaf_since_epoch, "not-yet-valid-leaf:valid-until-9999": ch_future_leaf_forever,
     "expired-intermediate:leaf-valid-until-9999": ch_expired_inter_leaf_forever, "expired-root:leaf-valid-until-9999": ch_expired_root_leaf_forever, "self-signed-certificate-over-the-credential-key": ch_surrogate_self_signed, "pinned-leaf-expired": ch_pinned_leaf_expired, "pinned-leaf-not-yet-valid": ch_pinned_leaf_future,
 }
+# the same faults on chains whose root is an X.509 VERSION 1 certificate, and on chains whose leaf spells its issuer's name differently (same name to X.509 matching)
+def _with_k(fault, **kv):
+    def f(s, r):
+        fault(s, r)
+        for k_, v_ in kv.items():
+            if k_ == "pki_kw":
+                s.k["pki_kw"] = dict(s.k.get("pki_kw", {}), **v_)
+            else:
+                s.k[k_] = v_
+    return f
+for _n in ("expired-root", "not-yet-valid-root", "expired-leaf", "expired-intermediate"):
+    CHAIN_FAULTS[_n + ":x509-v1-root"] = _with_k(CHAIN_FAULTS[_n], pki_kw=dict(root_v1=True))
+for _n in ("expired-leaf", "not-yet-valid-leaf", "expired-root", "corrupted-signature"):
+    CHAIN_FAULTS[_n + ":issuer-name-in-another-spelling"] = _with_k(CHAIN_FAULTS[_n], leaf_issuer_respelled=True)
 # the same faults with unrecognised (non-critical) extensions on the leaf - see _extension_decor
 for _n in ("expired-leaf", "not-yet-valid-leaf", "expired-intermediate", "expired-root", "impostor-root-same-name", "missing-intermediate"):
     CHAIN_FAULTS[_n + ":leaf-with-unrecognised-extensions"] = _decorated(CHAIN_FAULTS[_n])
